@@ -368,6 +368,14 @@ def _gather(v, ax, idx):
                 k = idx.values[0]
                 return nf.slice_axis(v, a, k, D(k) + 1)
             raise Undecided("constant index list of length > 1")
+        if idx.kind == "wrapneg":
+            # numpy / jnp.take already count negative entries from the end: wrapping with the axis length is the same selection
+            base, n = idx.parts
+            if n == nf.axsize(v.axes[a]):
+                return _gather(v, a, base)
+            return nf.gather_axis(v, a, idx.name, idx.size)
+        if idx.kind == "shift":
+            return nf.gather_axis(v, a, idx.name, idx.size)
         if idx.kind == "compose":
             # x[g[s]] = (x[g])[s]
             return _gather(_gather(v, a, idx.parts[0]), a, idx.parts[1])
@@ -510,6 +518,14 @@ def j_where(I, args, kw):
     if len(args) != 3:
         raise Undecided("one-argument where")
     c, a, b = args
+    it = _I()
+    if isinstance(c, it.IdxMask):
+        # where(idx < 0, idx + n, idx)  /  where(idx >= 0, idx, idx + n): negative entries count from the end of an axis of length n
+        neg, pos = (a, b) if c.sense == "neg" else (b, a)
+        if isinstance(neg, it.IdxArr) and neg.kind == "shift" and neg.parts[0] is c.base and pos is c.base:
+            n = neg.parts[1]
+            return it.IdxArr(f"wrapneg[{n}]:{c.base.name}", c.base.size, kind="wrapneg", parts=(c.base, n))
+        raise Undecided("where on an index list that is not the negative-index wrap idiom")
     c = _arr(c)
     a, b = _where_operand(a), _where_operand(b)
     # where(c, a, b) = b + c * (a - b)  with c a 0/1 indicator
@@ -1033,6 +1049,14 @@ def j_setdiff1d(I, args, kw):
     raise Undecided("setdiff1d")
 
 
+def j_linalg_inv(I, args, kw):
+    v = _arr(args[0])
+    nt = nf.normalize(v)
+    if len(nt) == 1 and len(nt[0][1].f) == 1 and nf.ST.head[nt[0][1].f[0][0]].kind == "atom" and not nf.ST.head[nt[0][1].f[0][0]].sym:
+        return nf.ginverse(v)
+    return nf.inverse(v, "linalg.inv")[0]
+
+
 def j_slogdet(I, args, kw):
     v = _arr(args[0])
     ld = nf.logdet(v)
@@ -1370,7 +1394,7 @@ EXT = {
     "jax.numpy.matmul": j_matmul, "jax.numpy.transpose": j_transpose, "jax.numpy.expand_dims": j_expand_dims,
     "jax.numpy.broadcast_to": j_broadcast_to, "jax.numpy.zeros_like": j_zeros_like, "jax.numpy.ones_like": j_ones_like,
     "jax.numpy.repeat": j_repeat, "jax.numpy.asarray": j_array, "jax.numpy.float64": lambda I, a, k: a[0],
-    "jax.numpy.linalg.slogdet": j_slogdet, "jax.numpy.linalg.cholesky": j_cholesky,
+    "jax.numpy.linalg.slogdet": j_slogdet, "jax.numpy.linalg.inv": j_linalg_inv, "jax.numpy.linalg.cholesky": j_cholesky,
     "jax.scipy.linalg.cho_factor": j_cho_factor, "jax.scipy.linalg.cho_solve": j_cho_solve,
     "jax.random.normal": r_normal, "jax.random.PRNGKey": r_prngkey, "jax.random.key": r_prngkey,
     "jax.lax.stop_gradient": l_stop_gradient,
